@@ -735,7 +735,7 @@ Definition marker310 (t : ltab) (f : bytes) : list N :=
   end.
 
 (* ghost marker 311: the program answered from the circuit_id_subscribers entry while subscriber_pools
-   holds a DIFFERENT binding for the requesting hardware address: the kernel looks a relayed request up
+   holds a DIFFERENT binding, or none, for the requesting hardware address: the kernel looks a relayed request up
    by circuit-id first, userspace by hardware address first (two subscribers seen behind one circuit) *)
 Definition marker311 (m : maps) (f : bytes) : list N :=
   match parse f with
@@ -747,6 +747,9 @@ Definition marker311 (m : maps) (f : bytes) : list N :=
           | Some (Some k), Some ch =>
               match lookup k (m_cid m), lookup (rev ch ++ [0; 0]) (m_sub m) with
               | Some a, Some a' => if bytes_eqb (firstn 8 a) (firstn 8 a') then [] else [311]
+              | Some _, None => [311]   (* the requester has no binding of its own (never had one, or it was
+                                           released / declined / swept): the answer is another subscriber's
+                                           circuit-id entry *)
               | _, _ => []
               end
           | _, _ => []
